@@ -193,7 +193,7 @@ func intsWithin(n datamodel.Node) bool {
 // literalNodes: ready-made IPLD nodes holding an out-of-range integer, supplied directly, nested in IPLD
 // containers and nested in Go containers, through every way a caller has of putting a value into a token's
 // arguments. Accepted ⇒ every integer kept is within ±(2^53−1); a token built from them never carries one.
-func literalNodes() (out string) {
+func literalNodes(rtOnly bool) (out string) {
 	defer func() {
 		if r := recover(); r != nil {
 			out = fmt.Sprint("panic: ", r)
@@ -276,6 +276,9 @@ func literalNodes() (out string) {
 		}
 	}
 	sort.Strings(problems)
+	if rtOnly {
+		problems = keepRoundTrip(problems)
+	}
 	if len(problems) > 0 {
 		if len(problems) > 4 {
 			problems = append(problems[:4], fmt.Sprintf("… %d more", len(problems)-4))
@@ -287,7 +290,7 @@ func literalNodes() (out string) {
 
 // ctorWellFormed: whatever options a caller combines, a token that a constructor returns has a defined issuer, the
 // principals its type requires and a nonce of at least 12 bytes, and it unseals again.
-func ctorWellFormed() (out string) {
+func ctorWellFormed(rtOnly bool) (out string) {
 	defer func() {
 		if r := recover(); r != nil {
 			out = fmt.Sprint("panic: ", r)
@@ -378,6 +381,9 @@ func ctorWellFormed() (out string) {
 			}
 		}
 	}
+	if rtOnly {
+		problems = keepRoundTrip(problems)
+	}
 	sort.Strings(problems)
 	if len(problems) > 0 {
 		return strings.Join(problems, "; ")
@@ -387,7 +393,7 @@ func ctorWellFormed() (out string) {
 
 // cmdHistory: strings the command grammar refuses stay refused after the same text has been ASSEMBLED with
 // command.New / Join (which do not validate), by the parser, by both token constructors and by the decoders.
-func cmdHistory() (out string) {
+func cmdHistory(rtOnly bool) (out string) {
 	defer func() {
 		if r := recover(); r != nil {
 			out = fmt.Sprint("panic: ", r)
@@ -479,8 +485,24 @@ func cmdHistory() (out string) {
 			}
 		}
 	}
+	if rtOnly {
+		problems = keepRoundTrip(problems)
+	}
 	if len(problems) > 0 {
 		return strings.Join(problems, "; ")
 	}
 	return "ok"
+}
+
+// keepRoundTrip: of the problems a constructor / literal / command-history check found, those that are about sealing and
+// unsealing (C07's matter); the others (a value stored inexactly, a token lacking a principal, a refused text accepted) belong
+// to the property the check runs under in its other class and must not be reported against the round trip
+func keepRoundTrip(problems []string) []string {
+	var out []string
+	for _, p := range problems {
+		if strings.Contains(p, "does not unseal") || strings.Contains(p, "does not come back") {
+			out = append(out, p)
+		}
+	}
+	return out
 }
